@@ -1,12 +1,12 @@
 (* Property C15 — Moon position is physical; lunar event finders agree with it.
    Statements only; proofs in C15_angle / C15_nodes / C15_illum (ideal instance of the model
    regenerated from /repo) and Spec.MoonFinder (hand-written finder spec).
-   J2000 is the premise  g_JDE2000 Rops = epo 2451545  (value of the module constant JDE2000). *)
+   The value of the module constant JDE2000 (g_JDE2000 Rops = epo 2451545) is proved in C15_j2000.v. *)
 From Coq Require Import Reals ZArith List Bool Lra String.
 From PyLib Require Import PyVal PyBuiltins Ideal PyEval.
 From Spec Require Import MoonFinder.
 From Gen Require Import M_base M_Angle M_Epoch M_Moon.
-From Proofs.C15 Require Import C15_angle C15_nodes C15_illum C15_fdefs.
+From Proofs.C15 Require Import C15_angle C15_j2000 C15_nodes C15_illum C15_fdefs.
 From Proofs.C15 Require C15_f_moon_maximum_declination_northern.
 From Proofs.C15 Require C15_f_moon_maximum_declination_southern.
 From Proofs.C15 Require C15_f_moon_passage_nodes_ascending.
@@ -29,14 +29,17 @@ Theorem C15_angle_reduction : forall x : R,
 Proof. exact reduce_chain. Qed.
 
 (* mean ascending node: Meeus' polynomial in T = (JDE - 2451545)/36525, reduced to [0,360) *)
-Theorem C15_mean_node : forall j : R, J2000 ->
+Theorem C15_jde2000 : g_JDE2000 Rops = epo 2451545.
+Proof. exact JDE2000_val. Qed.
+
+Theorem C15_mean_node : forall j : R,
   Moon_longitude_mean_ascending_node Rops (epo j) = ang (norm360 (node_poly (Tc j))).
-Proof. exact mean_node_closed. Qed.
+Proof. exact (fun j => mean_node_closed j JDE2000_val). Qed.
 
 (* mean perigee: polynomial in T, reduced to (-360,360) *)
-Theorem C15_mean_perigee : forall j : R, J2000 ->
+Theorem C15_mean_perigee : forall j : R,
   Moon_longitude_mean_perigee Rops (epo j) = ang (rdeg (perigee_poly (Tc j))).
-Proof. exact mean_perigee_closed. Qed.
+Proof. exact (fun j => mean_perigee_closed j JDE2000_val). Qed.
 
 (* secular rates are the linear coefficients: -1934.1362891 and +4069.0137287 deg/century; the
    higher-order part stays below 8.2 / 40.6 deg over |T| <= 60 (the linear part moves 116 000 / 244 000 deg) *)
@@ -48,10 +51,10 @@ Theorem C15_perigee_rate : forall t : R, -60 <= t <= 60 ->
 Proof. exact perigee_rate. Qed.
 
 (* illuminated fraction: k = (1 + cos i)/2 for an angle i, hence in [0,1] *)
-Theorem C15_illuminated_fraction : forall j : R, J2000 ->
+Theorem C15_illuminated_fraction : forall j : R,
   exists i : R, Moon_illuminated_fraction_disk Rops (epo j) = VFloat ((1 + cos (d2r i)) / 2)
              /\ 0 <= (1 + cos (d2r i)) / 2 <= 1.
-Proof. exact illuminated_closed. Qed.
+Proof. exact (fun j => illuminated_closed j JDE2000_val). Qed.
 
 (* finder spec: the index round((year - y0) * rate) is non-decreasing in the fractional year and onto;
    results mean(k) + c(k) with |c| <= C, mean spacing B +- D, 2C + D < B: strictly increasing, spaced B +- (2C+D) *)
@@ -132,6 +135,7 @@ Proof.
 Qed.
 
 Redirect "C15_angle_reduction.assumptions" Print Assumptions C15_angle_reduction.
+Redirect "C15_jde2000.assumptions" Print Assumptions C15_jde2000.
 Redirect "C15_mean_node.assumptions" Print Assumptions C15_mean_node.
 Redirect "C15_mean_perigee.assumptions" Print Assumptions C15_mean_perigee.
 Redirect "C15_node_rate.assumptions" Print Assumptions C15_node_rate.
